@@ -32,6 +32,7 @@ REQUIRE = {
     "render_steps_with_cache_hit": 150,
     "mutations_applied": 300,
     "rows_steps_judged": 10,
+    "inner_rows_judged": 200,
     "ledger_canvases_verified": 3000,
     "gc_steps": 10,
     "cache_cleanups": 100,
@@ -320,8 +321,34 @@ class History:
                 )
             )
 
+    def inner_rows_step(self):
+        """row counts answered from cached canvases == computed afresh, for every flow widget of the tree
+        that has cached canvases (the cached rows() wrapper answers from them)"""
+        from urwid.canvas import CanvasCache as CC
+
+        for w in T.walk(self.root):
+            entries = CC._widgets.get(w)
+            if not entries or not hasattr(w, "rows"):
+                continue
+            for (wcls, size, focus), ref in list(entries.items()):
+                if len(size) != 1 or ref() is None:
+                    continue
+                try:
+                    r0 = self.shadow(lambda w=w, size=size, focus=focus: w.rows(size, focus))
+                    r1 = w.rows(size, focus)
+                    r2 = self.shadow(lambda w=w, size=size, focus=focus: w.rows(size, focus))
+                except Exception:  # noqa: BLE001
+                    continue
+                if r0 != r2:
+                    continue
+                self.c("inner_rows_judged")
+                if r1 != r0:
+                    self.found.append((f"C06|stale-rows|widget={type(w).__name__}|after={self.last_mut}", f"{type(w).__name__}.rows{size!r} focus={focus}: cached {r1} fresh {r0}"))
+                    return
+
     def rows_step(self, size, focus):
         root = self.root
+        self.inner_rows_step()
         if len(size) != 1:
             return
         try:
@@ -425,7 +452,7 @@ def gen_history(ctx, rng, mode, nops):
                         emit(["gc", rng.randint(0, 10**6)])
                     n += 1
                 # ... then look: mostly at a (size, focus) rendered before
-                if rng.random() < 0.15 and kind == "flow":
+                if rng.random() < 0.2:
                     emit(["rows", rng.randrange(len(sizes)), int(rng.random() < 0.5)])
                 for _ in range(rng.randint(1, 2)):
                     emit(["render", rng.randrange(len(sizes)), int(rng.random() < 0.65)])
